@@ -2,6 +2,7 @@ SPECIFICATION Spec
 CONSTANTS
   MaxLen = 3
   EmitLen = 3
+  Wide = FALSE
   EmitMod = 0
 INVARIANTS NfcIdempotent NfcPreservesEquivalence NfcOfEquivalentSpellings PunycodeRoundTrip
   LowerCaseAscii Idempotent StableUnderFullProcessing RoundTrip CaseInsensitive IgnoredIgnored
